@@ -17,7 +17,7 @@ var c01Frags = []string{
 	"{{", "}}", "{%", "%}", "{#", "#}", "-", " ", "\n", "a", "1", ".", "|", "(", ")", "[", "]", "{", "}",
 	"\"", "'", "#{", ",", ":", "?", "=", "+", "%", "*", "/", "~", "<", "!", "not", "in", "is", "if", "endif",
 	"for", "endfor", "block", "endblock", "set", "verbatim", "endverbatim", "\r", "\t", "é", "\xff", "$",
-	"embed", "filter", "macro", "and", "\\",
+	"embed", "filter", "macro", "and", "\\", "\x00", "\ufeff",
 }
 
 var c01Core = []string{"{{", "{%", "{#", "a", "1", ".", "\"", "-", " ", "%}", "}}", "(", "\\", "'"}
@@ -147,6 +147,29 @@ func c01Levels(tier string) []core.Level {
 		for _, n := range c01Depths(tier) {
 			for _, p := range c01NestPatterns() {
 				emit(core.Case{Fam: "deep", Src: p[0] + strings.Repeat(p[1], n) + p[2] + strings.Repeat(p[3], n) + p[4]})
+			}
+		}
+	}})
+	lv = append(lv, core.Level{Name: "long homogeneous sequences: 16 element forms (empty and non-empty strings, numbers, names, empty brackets, calls, interpolations, hash entries) repeated 1..64, 100, 200, 500, 2000 times in a list, a hash, an argument list, a concatenation and as consecutive prints / tags / comments, each also after an early syntax error", Gen: func(emit func(core.Case)) {
+		ns := []int{100, 200, 500, 2000}
+		for n := 1; n <= 64; n++ {
+			ns = append(ns, n)
+		}
+		els := []string{"''", "\"\"", "'a'", "1", "a", "[]", "{}", "()", "f()", "-a", "\"#{a}\"", "a.b", "a|up", "[[]]", "''~''", "1.5"}
+		for _, n := range ns {
+			for _, e := range els {
+				list := strings.TrimSuffix(strings.Repeat(e+",", n), ",")
+				srcs := []string{"{{ [" + list + "] }}", "{{ f(" + list + ") }}", "{{ " + strings.TrimSuffix(strings.Repeat(e+"~", n), "~") + " }}",
+					"{{ {" + strings.TrimSuffix(strings.Repeat("'k':"+e+",", n), ",") + "} }}", strings.Repeat("{{"+e+"}}", n), "{% set x = [" + list + "] %}"}
+				for _, src := range srcs {
+					emit(core.Case{Fam: "long", Src: src})
+					emit(core.Case{Fam: "long", Src: "{{ a b }}" + src})
+					emit(core.Case{Fam: "long", Src: src[:len(src)-3]})
+				}
+			}
+			for _, u := range []string{"{% if a %}x{% endif %}", "{# c #}", "{% set x = '' %}", "{{ '' }}", "text ", "{", "{% include '' %}", "\x00", "{{ a }}\n"} {
+				emit(core.Case{Fam: "long", Src: strings.Repeat(u, n)})
+				emit(core.Case{Fam: "long", Src: "{% nosuch %}" + strings.Repeat(u, n)})
 			}
 		}
 	}})
